@@ -41,6 +41,9 @@ CHUNK = 4
 ALPHABET = ("a", "b", "r", "h", "n", "H")
 
 
+GLOBAL_STATE_ORACLE = True     # the runner also compares NumPy's error state, print options and the warnings filters before/after each case
+
+
 def bounds(tier):
     return {"call alphabet": list(ALPHABET),
             "stateless depth": 2 if tier == "quick" else 3,
